@@ -1,5 +1,6 @@
 (* C02: the encoder (signals_to_bytes) is total on its envelope, inverts decoding, clears foreign bits. *)
 From CM Require Import lib.Prelude model.Codec proofs.Codec_encode_lib.
+From CM Require proofs.Codec_decode.
 
 (* ---------- one placement step ---------- *)
 
@@ -182,4 +183,223 @@ Proof.
     + rewrite place_cons_none in Hp by exact E.
       destruct Hs as [<-|Hs]; [congruence|].
       apply (IH _ _ _ _ Hr Hdr Hlb Hbb Hp s v bits j Hs Hv Hpk Hj).
+Qed.
+
+(* ---------- the assembled bytes ---------- *)
+
+Definition empty_bits (f : Z) : list (option bool) := repeat None (Z.to_nat (8 * f)).
+
+Lemma stb_unfold : forall f sigs data bytes, signals_to_bytes f sigs data = Some bytes ->
+  0 <= f /\ exists lb bb, place_signals (8 * f) sigs data (empty_bits f) (empty_bits f) = Some (lb, bb) /\
+    bytes = map bin_value (chunks 8 (map merge_bit (combine (grev lb) bb))).
+Proof.
+  intros f sigs data bytes. unfold signals_to_bytes, empty_bits.
+  destruct (Z.ltb_spec f 0) as [|Hf]; [discriminate|]. rewrite (Z.mul_comm f 8).
+  destruct (place_signals _ _ _ _ _) as [[lb bb]|] eqn:E; [|discriminate].
+  intros H. split; [exact Hf|]. exists lb, bb. split; [reflexivity|]. congruence.
+Qed.
+
+Lemma stb_fold : forall f sigs data lb bb, 0 <= f ->
+  place_signals (8 * f) sigs data (empty_bits f) (empty_bits f) = Some (lb, bb) ->
+  signals_to_bytes f sigs data = Some (map bin_value (chunks 8 (map merge_bit (combine (grev lb) bb)))).
+Proof.
+  intros f sigs data lb bb Hf H. unfold signals_to_bytes. unfold empty_bits in H.
+  destruct (Z.ltb_spec f 0) as [|_]; [lia|]. rewrite (Z.mul_comm f 8). rewrite H. reflexivity.
+Qed.
+
+Lemma zlen_empty : forall f, 0 <= f -> zlen (empty_bits f) = 8 * f.
+Proof. intros f H. unfold empty_bits. rewrite zlen_repeat. lia. Qed.
+
+Lemma znth_empty : forall f q, znth (empty_bits f) q None = None.
+Proof. intros. apply znth_repeat. Qed.
+
+Lemma layout_sig_ok : forall f sigs data, layout_ok f sigs ->
+  (forall s v, In s sigs -> lookup (s_name s) data = Some v -> in_range s v) ->
+  Forall (sig_ok data (8 * f)) sigs.
+Proof.
+  intros f sigs data [_ [_ [_ HF]]] Hr. rewrite Forall_forall in *. intros s Hs v Hv.
+  destruct (HF s Hs) as [H1 H2]. split; [exact H1|]. split; [exact H2|]. apply Hr; assumption.
+Qed.
+
+Lemma encode_bits : forall f (lb bb : list (option bool)), 0 <= f -> zlen lb = 8 * f -> zlen bb = 8 * f ->
+  let bytes := map bin_value (chunks 8 (map merge_bit (combine (grev lb) bb))) in
+  zlen bytes = f /\ bytes_ok bytes = true /\
+  forall p, 0 <= p < 8 * f -> mbit bytes p = merge_bit (znth lb (gidx f p) None, znth bb p None).
+Proof.
+  intros f lb bb Hf Hlb Hbb bytes.
+  assert (Llb : length lb = (8 * Z.to_nat f)%nat) by (unfold zlen in Hlb; lia).
+  assert (Lbb : length bb = (8 * Z.to_nat f)%nat) by (unfold zlen in Hbb; lia).
+  assert (Lg : length (grev lb) = length lb) by (apply (grev_length _ (Z.to_nat f)); exact Llb).
+  set (bs := map merge_bit (combine (grev lb) bb)) in *.
+  assert (Lbs : length bs = (8 * Z.to_nat f)%nat).
+  { unfold bs. rewrite map_length, combine_length. lia. }
+  split; [|split].
+  - unfold bytes. rewrite zlen_map. unfold zlen. rewrite (chunks_length _ (Z.to_nat f)) by exact Lbs. lia.
+  - apply (bytes_ok_chunks (Z.to_nat f)). exact Lbs.
+  - intros p Hp. unfold bytes. rewrite (mbit_chunks (Z.to_nat f)) by (unfold zlen; lia).
+    unfold bs. rewrite (znth_map _ _ _ _ _ (None, None)) by (unfold zlen; rewrite combine_length; lia).
+    f_equal. unfold znth at 1. rewrite combine_nth by lia. f_equal.
+    change (nth (Z.to_nat p) (grev lb) None) with (znth (grev lb) p None).
+    rewrite (znth_grev _ _ (Z.to_nat f)) by (unfold zlen; lia). rewrite Z2Nat.id by lia. reflexivity.
+Qed.
+
+Lemma sig_bit_mbit : forall d s i, 0 <= s_start s -> sig_bit d s i = mbit d (pos_of s i).
+Proof.
+  intros d s i H. unfold sig_bit, pos_of. destruct (s_le s); [|reflexivity]. apply pbit_mbit. lia.
+Qed.
+
+Lemma pos_of_posn : forall f s i, inside (8 * f) s = true -> (i < Z.to_nat (s_size s))%nat ->
+  pos_of s i = posn f (s_le s) (slot (8 * f) s + (s_size s - 1 - Z.of_nat i)).
+Proof.
+  intros f s i Hin Hi. apply inside_facts in Hin. destruct Hin as [H0 [H1 H2]].
+  unfold pos_of, posn, slot, gidx. destruct (s_le s); lia.
+Qed.
+
+Lemma occupies_range : forall f s p, inside (8 * f) s = true -> occupies s p -> 0 <= p < 8 * f.
+Proof.
+  intros f s p Hin [i [Hi Hp]]. apply inside_facts in Hin. destruct Hin as [H0 [H1 H2]].
+  subst p. unfold pos_of. destruct (s_le s); lia.
+Qed.
+
+(* the whole characterisation: own bits of supplied signals, and cleared foreign bits *)
+Lemma encode_char : forall f sigs data bytes,
+  layout_ok f sigs ->
+  (forall s v, In s sigs -> lookup (s_name s) data = Some v -> in_range s v) ->
+  signals_to_bytes f sigs data = Some bytes ->
+  zlen bytes = f /\ bytes_ok bytes = true /\
+  (forall s v i, In s sigs -> lookup (s_name s) data = Some v -> (i < Z.to_nat (s_size s))%nat ->
+     sig_bit bytes s i = Z.testbit (raw_z v) (Z.of_nat i)) /\
+  (forall p, 0 <= p < 8 * f ->
+     (forall s, In s sigs -> lookup (s_name s) data <> None -> ~ occupies s p) -> mbit bytes p = false).
+Proof.
+  intros f sigs data bytes Hlay Hrng Hstb.
+  pose proof (layout_sig_ok f sigs data Hlay Hrng) as Hok.
+  destruct (stb_unfold _ _ _ _ Hstb) as [Hf [lb [bb [Hp ->]]]].
+  destruct (place_spec _ _ _ _ _ _ _ Hok (zlen_empty f Hf) (zlen_empty f Hf) Hp) as [Llb [Lbb Hsp]].
+  destruct (encode_bits f lb bb Hf Llb Lbb) as [E1 [E2 E3]].
+  destruct Hlay as [_ [_ [Hdis _]]].
+  split; [exact E1|]. split; [exact E2|]. split.
+  - intros s v i Hs Hv Hi.
+    rewrite Forall_forall in Hok. destruct (Hok s Hs v Hv) as [Hin [Hfl Hr]].
+    pose proof (inside_facts _ _ Hin) as [I0 [I1 I2]].
+    destruct (pack_bits_spec _ s v Hin Hfl Hr) as [bits [Hpk [Hl Hb]]].
+    rewrite sig_bit_mbit by exact I0.
+    assert (Hocc : occupies s (pos_of s i)) by (exists i; split; [exact Hi|reflexivity]).
+    pose proof (occupies_range f s _ Hin Hocc) as Hpr.
+    rewrite E3 by exact Hpr.
+    assert (Hj : 0 <= s_size s - 1 - Z.of_nat i < s_size s) by lia.
+    rewrite <- Forall_forall in Hok.
+    pose proof (place_keeps _ _ _ _ _ _ _ Hok Hdis (zlen_empty f Hf) (zlen_empty f Hf) Hp s v bits _ Hs Hv Hpk Hj) as Hk.
+    rewrite (Hb (Z.of_nat i)) in Hk by lia.
+    rewrite (pos_of_posn f s i Hin Hi). rewrite (pos_of_posn f s i Hin Hi) in Hpr, Hocc.
+    set (q := slot (8 * f) s + (s_size s - 1 - Z.of_nat i)) in *.
+    assert (Hq : 0 <= q < 8 * f) by (unfold q, slot; destruct (s_le s); lia).
+    unfold posn in *. destruct (s_le s) eqn:Ele; cbn [sel] in Hk.
+    + rewrite gidx_invol by exact Hq. rewrite Hk. reflexivity.
+    + rewrite Hk.
+      destruct (Hsp true (gidx f q) (gidx_range f q Hq)) as [Heq|Hw]; cbn [sel] in *.
+      * rewrite Heq, znth_empty. reflexivity.
+      * exfalso. destruct (written_occupies _ _ _ _ _ _ Hok Hw) as [t [T1 [T2 [T3 T4]]]].
+        unfold posn in T4. rewrite gidx_invol in T4 by exact Hq.
+        destruct (ForallOrdPairs_In Hdis s t Hs T1) as [Hst|[Hst|Hst]].
+        -- subst t. congruence.
+        -- apply (Hst q). split; assumption.
+        -- apply (Hst q). split; assumption.
+  - intros p Hpr Hfor. rewrite E3 by exact Hpr.
+    assert (Hno : forall le q x, posn f le q = p -> written data (8 * f) sigs le q x -> False).
+    { intros le q x Hpq Hw. destruct (written_occupies _ _ _ _ _ _ Hok Hw) as [t [T1 [T2 [T3 T4]]]].
+      rewrite Hpq in T4. exact (Hfor t T1 T3 T4). }
+    destruct (Hsp true (gidx f p) (gidx_range f p Hpr)) as [Heq|Hw]; cbn [sel] in *.
+    + rewrite Heq, znth_empty.
+      destruct (Hsp false p Hpr) as [Heq2|Hw2]; cbn [sel] in *.
+      * rewrite Heq2, znth_empty. reflexivity.
+      * exfalso. apply (Hno false p _ eq_refl Hw2).
+    + exfalso. apply (Hno true (gidx f p) _ (gidx_invol f p Hpr) Hw).
+Qed.
+
+(* ---------- the C02 statements ---------- *)
+
+Theorem encode_total_and_length :
+  forall fsize sigs data,
+    layout_ok fsize sigs ->
+    (forall s v, In s sigs -> lookup (s_name s) data = Some v -> in_range s v) ->
+    exists bytes, signals_to_bytes fsize sigs data = Some bytes /\ zlen bytes = fsize /\ bytes_ok bytes = true.
+Proof.
+  intros f sigs data Hlay Hrng.
+  pose proof (layout_sig_ok f sigs data Hlay Hrng) as Hok.
+  assert (Hf : 0 <= f) by (destruct Hlay as [H _]; exact H).
+  destruct (place_total data (8 * f) sigs _ _ Hok (zlen_empty f Hf) (zlen_empty f Hf)) as [lb [bb Hp]].
+  pose proof (stb_fold f sigs data lb bb Hf Hp) as Hs.
+  eexists. split; [exact Hs|].
+  destruct (encode_char f sigs data _ Hlay Hrng Hs) as [E1 [E2 _]]. split; assumption.
+Qed.
+
+Theorem decode_encode :
+  forall fsize sigs data bytes,
+    layout_ok fsize sigs ->
+    (forall s v, In s sigs -> lookup (s_name s) data = Some v -> in_range s v) ->
+    signals_to_bytes fsize sigs data = Some bytes ->
+    forall s v, In s sigs -> lookup (s_name s) data = Some v ->
+      decode_signal bytes (8 * fsize) s = Some v.
+Proof.
+  intros f sigs data bytes Hlay Hrng Hs s v Hin Hv.
+  destruct (encode_char f sigs data bytes Hlay Hrng Hs) as [E1 [_ [E3 _]]].
+  destruct Hlay as [_ [_ [_ HF]]]. rewrite Forall_forall in HF. destruct (HF s Hin) as [Hi Hfl].
+  rewrite <- E1 in Hi |- *.
+  rewrite (Codec_decode.decode_is_convention_value bytes s Hi Hfl). f_equal.
+  apply (convention_value_of_bits (8 * zlen bytes)); [exact Hi|apply (Hrng s v Hin Hv)|].
+  intros i Hlt. apply (E3 s v i Hin Hv Hlt).
+Qed.
+
+Theorem encode_clears_foreign_bits :
+  forall fsize sigs data bytes,
+    layout_ok fsize sigs ->
+    (forall s v, In s sigs -> lookup (s_name s) data = Some v -> in_range s v) ->
+    signals_to_bytes fsize sigs data = Some bytes ->
+    forall p, 0 <= p < 8 * fsize ->
+      (forall s, In s sigs -> lookup (s_name s) data <> None -> ~ occupies s p) ->
+      mbit bytes p = false.
+Proof.
+  intros f sigs data bytes Hlay Hrng Hs.
+  destruct (encode_char f sigs data bytes Hlay Hrng Hs) as [_ [_ [_ E4]]]. exact E4.
+Qed.
+
+Lemma decode_all_lookup : forall d N sigs vals, NoDup (map s_name sigs) ->
+  decode_all d N sigs = Some vals ->
+  forall s, In s sigs -> lookup (s_name s) vals = decode_signal d N s.
+Proof.
+  intros d N sigs. induction sigs as [|s0 r IH]; intros vals Hnd Hd s Hs.
+  - destruct Hs.
+  - cbn [decode_all] in Hd. cbn [map] in Hnd. inversion Hnd as [|n l Hni Hnd']; subst n l.
+    destruct (decode_signal d N s0) as [v0|] eqn:E0; [|discriminate].
+    destruct (decode_all d N r) as [vs|] eqn:Er; [|discriminate].
+    assert (vals = (s_name s0, v0) :: vs) by congruence. subst vals.
+    cbn [lookup]. destruct Hs as [<-|Hs].
+    + rewrite Z.eqb_refl. symmetry. exact E0.
+    + destruct (Z.eqb_spec (s_name s0) (s_name s)) as [Heq|Hne].
+      * exfalso. apply Hni. rewrite Heq. apply in_map. exact Hs.
+      * apply (IH vs Hnd' eq_refl s Hs).
+Qed.
+
+Theorem encode_decode_on_covered_bits :
+  forall fsize sigs d vals bytes,
+    layout_ok fsize sigs -> zlen d = fsize ->
+    decode_all d (8 * fsize) sigs = Some vals ->
+    signals_to_bytes fsize sigs vals = Some bytes ->
+    forall s i, In s sigs -> (i < Z.to_nat (s_size s))%nat -> sig_bit bytes s i = sig_bit d s i.
+Proof.
+  intros f sigs d vals bytes Hlay Hlen Hd Hs.
+  assert (Hval : forall s, In s sigs -> inside (8 * f) s = true /\
+                   lookup (s_name s) vals = Some (convention_value d s)).
+  { intros s Hin. destruct Hlay as [_ [Hnu [_ HF]]]. rewrite Forall_forall in HF.
+    destruct (HF s Hin) as [Hi Hfl]. split; [exact Hi|].
+    rewrite (decode_all_lookup d (8 * f) sigs vals Hnu Hd s Hin).
+    rewrite <- Hlen in Hi |- *. apply Codec_decode.decode_is_convention_value; assumption. }
+  assert (Hrng : forall s v, In s sigs -> lookup (s_name s) vals = Some v -> in_range s v).
+  { intros s v Hin Hv. destruct (Hval s Hin) as [Hi Hl]. rewrite Hl in Hv.
+    assert (v = convention_value d s) by congruence. subst v.
+    apply (convention_value_in_range (8 * f)). exact Hi. }
+  destruct (encode_char f sigs vals bytes Hlay Hrng Hs) as [_ [_ [E3 _]]].
+  intros s i Hin Hi. destruct (Hval s Hin) as [Hins Hl].
+  rewrite (E3 s _ i Hin Hl Hi). apply (convention_value_bits (8 * f)); assumption.
 Qed.
